@@ -345,7 +345,7 @@ def replay_race(strat, b0, b2, mi, ti, v, p1, n, p2):
 _RQ3 = [('s%d_%s_m%d' % (i, K.STRATEGY_NAMES[i] or 'none', m), 'strat == %d and mi == %d' % (i, m)) for i in (0, 3) for m in (0, 2)]
 _RS3 = [('s%d_%s_m%d' % (i, n or 'none', m), 'strat == %d and mi == %d' % (i, m)) for i, n in enumerate(K.STRATEGY_NAMES) for m in range(3)]
 HARNESSES.append(
-  H('C03_race', quick=dict(timeout=280, shards=_RQ3, extra_pre=['p2 == 0', 'ti != 1', 'b0 and not b2', 'n in (0, 2, 4, 6, 9, 12)']), thorough=dict(timeout=900, shards=_RS3, extra_pre=['p2 in (0, 4)', 'ti != 1']),
+  H('C03_race', quick=dict(timeout=420, shards=_RQ3, extra_pre=['p2 == 0', 'ti != 1', 'b0 and not b2', 'n in (0, 2, 4, 6, 9, 12)']), thorough=dict(timeout=900, shards=_RS3, extra_pre=['p2 in (0, 4)', 'ti != 1']),
     covers=['interleaved'], replay='replay_race', twin_pre=['strat == 0 and mi == 0'],
     encodes=['carbon.writer:writeCachedDataPoints (statement-level coroutine)', 'carbon.cache:_MetricCache.store / drain_metric / pop (statement-level coroutines)'],
     assumptions=['schedules: the writer pass runs p1 statements, the receiver (one store) n statements or until blocked, [thorough: writer p2 more], then both to completion',
